@@ -1,5 +1,5 @@
 """Model-checking configurations of spec/GBN.tla shared by the GBN checks."""
-from vlib import tlc
+from vlib import tlc, tlc_simulate
 
 CFG = """CONSTANTS
   N = %(n)d
@@ -90,3 +90,33 @@ INJECT_THOROUGH.update({
     "n2_2msg_inject1": cfg(2, 2, drop=0, dup=0, rs=1, inj=1,
                            injseqs="0,1,2,3,255", invs="WindowBound"),  # 8.8 M / 90 s
 })
+
+
+# Configurations beyond exhaustive reach (bidirectional traffic with pings,
+# several losses, duplicates and resends; 180 M states were not enough for the
+# smallest of them): a fixed number of random behaviours, every invariant and
+# the refinement of RelChan evaluated along each.
+SIM = {
+    "n2_bidir_4x3_pings_3drop_2dup": cfg(2, 4, ss=3, pc=1, ps=1, drop=3, dup=2, rs=3, cap=6),
+    "n3_bidir_5x2_2drop_2dup": cfg(3, 5, ss=2, drop=2, dup=2, rs=3, cap=7),
+    "n1_bidir_4x4_ping_4drop": cfg(1, 4, ss=4, pc=1, drop=4, dup=1, rs=4, cap=5),
+}
+
+
+def run_sim(ctx, num_per_worker, names=None):
+    """Returns (behaviours, states, per-config, list of (name, violated, out))."""
+    tr = st = 0
+    per = {}
+    bad = []
+    for name, c in SIM.items():
+        if names and name not in names:
+            continue
+        r = tlc_simulate(ctx, "MC_GBN", CFG % c, "sim_" + name, num_per_worker)
+        tr += r["traces"]
+        st += r["states"]
+        per[name] = {"constants": {k: v for k, v in c.items() if k not in ("invs", "props")},
+                     "behaviours": r["traces"], "states_checked": r["states"],
+                     "wall_s": round(r["wall"], 1), "ok": r["ok"]}
+        if not r["ok"]:
+            bad.append((name, r["violated"], r["out"]))
+    return tr, st, per, bad
